@@ -48,7 +48,14 @@ func canGlue(a, b string) bool {
 	if punct(la) || punct(fb) {
 		return !(la == '{' && fb == '{') // keep clear of anything that could look like another opener
 	}
-	arith := func(s string) bool { return s == "+" || s == "*" || s == "/" }
+	arith := func(s string) bool {
+		// arithmetic, comparison and logical operators: no white space is needed on either side
+		switch s {
+		case "+", "*", "/", "<", "<=", ">", ">=", "==", "!=", "&&", "||", "~=":
+			return true
+		}
+		return false
+	}
 	if arith(a) && (word(fb) || fb == '(' || fb == '[') {
 		return true
 	}
@@ -193,7 +200,7 @@ func (l layout18) stmtSepNonEmpty() string {
 
 var exprs18 = [][]string{{"n"}, {"(", "n", "+", "2", ")"}, {".5", "+", "1.5"}, {"2.5", "*", ".5"}, {"n", "+", "1"}, {"s"}, {`"lit<"`}, {"xs", "[", "0", "]"}, {"len", "(", "xs", ")"}, {"n", "*", "(", "2", "+", "n", ")"}, {"!", "f"},
 	{"n", "==", "3", "&&", "t"}, {"m", "[", `"a"`, "]"}, {"o.Name"}, {"0", "-", "n"}, {"s", "+", `" x"`}, {"[", "1", ",", "2", "]"}, {"{", "k", ":", "n", "}", "[", `"k"`, "]"},
-	{"o.In.Hello", "(", `"w"`, ")"}, {"o.Ins", "[", "0", "]", ".", "Name"}, {"Name"}, {"o.Ins", "[", "1", "]", ".", "Name"}, {"o.Get", "(", ")", ".", "Name"}, {"truncate", "(", "s", ",", "{", "size", ":", "3", "}", ")"}, {"n", "<=", "3", "||", "f"}, {"1.5", "+", "0.25"}, {"acc"}}
+	{"o.In.Hello", "(", `"w"`, ")"}, {"o.Ins", "[", "0", "]", ".", "Name"}, {"Name"}, {"o.Ins", "[", "1", "]", ".", "Name"}, {"o.Get", "(", ")", ".", "Name"}, {"truncate", "(", "s", ",", "{", "size", ":", "3", "}", ")"}, {"n", "<=", "3", "||", "f"}, {"n", ">=", "2", "&&", "(", "n", "<", "9", ")"}, {"s", "~=", `"^s"`}, {"n", "!=", "4", "||", "(", "t", "&&", "f", ")"}, {"1", "<", "n", "&&", "n", ">", "1"}, {"1.5", "+", "0.25"}, {"acc"}}
 
 func gen18(r *Rng, depth int) []litem18 {
 	n := 1 + r.Intn(4)
